@@ -13,7 +13,7 @@ CHECKS = {
  "C05": ("accept/store/origin decisions vs reference predicates with lists loaded through the real config.Process; MatchWithWildcards vs a reference matcher; recipient limit asserted in the C03 session harness",
          "bounded: lists of <= 2 (thorough 3) entries of <= 3 (4) bytes, domains <= 3 (5) bytes, patterns/subjects <= 4 (6/7) bytes; envconfig modelled as 'fills the struct with arbitrary values' (natively: real environment variables)", "4 C05"),
  "C06": ("real SMTP session with symbolic MaxMessageBytes, symbolic declared SIZE digits and a length-only body of symbolic length: refusal iff over the limit, nothing delivered when refused, session usable afterwards",
-         "lengths are 64-bit bit-vectors constrained to [0,70000] (limit [1,60000]) so that counterexamples can be replayed; SIZE of 0..6 digits; body content is never inspected", "4 C06"),
+         "lengths are 64-bit bit-vectors constrained to [0,70000] (limit [0,60000]) so that counterexamples can be replayed; SIZE of 0..6 digits; body content is never inspected", "4 C06"),
 }
 
 CHECKS.update({
